@@ -326,6 +326,11 @@ sfd_send(void *arg, nni_aio *aio)
 		nni_mtx_unlock(&c->mtx);
 		return;
 	}
+	if (c->closed) {
+		nni_mtx_unlock(&c->mtx);
+		nni_aio_finish_error(aio, NNG_ECLOSED);
+		return;
+	}
 	nni_aio_list_append(&c->writeq, aio);
 
 	if (nni_list_first(&c->writeq) == aio) {
@@ -349,6 +354,11 @@ sfd_recv(void *arg, nni_aio *aio)
 
 	if (!nni_aio_start(aio, sfd_cancel, c)) {
 		nni_mtx_unlock(&c->mtx);
+		return;
+	}
+	if (c->closed) {
+		nni_mtx_unlock(&c->mtx);
+		nni_aio_finish_error(aio, NNG_ECLOSED);
 		return;
 	}
 	nni_aio_list_append(&c->readq, aio);
